@@ -312,4 +312,95 @@ theorem startLeading_has (ops : StoreOps σ ρ) (st : Srv σ) (s k : Int) :
             simp only [has_set] at this
             exact this
 
+theorem checkStart_frame (ops : StoreOps σ ρ) (leaders : AList Str) (ks : List Int) (st : Srv σ) :
+    Frame st (checkStart ops leaders ks st) := by
+  induction ks generalizing st with
+  | nil => exact Frame.refl st
+  | cons k ks ih =>
+    unfold checkStart
+    simp only
+    split
+    · split
+      · exact (startLeading_frame ops st k).trans (ih _)
+      · exact ih st
+    · exact ih st
+
+/-- the first loop of `leaderCheck` only adds stores for shards the snapshot says are led by me -/
+theorem checkStart_has (ops : StoreOps σ ρ) (leaders : AList Str) (ks : List Int) (st : Srv σ) (k : Int) :
+    Has (checkStart ops leaders ks st) k → ledIn leaders st.me k = true ∨ Has st k := by
+  induction ks generalizing st with
+  | nil => exact Or.inr
+  | cons k' ks ih =>
+    unfold checkStart
+    simp only
+    split
+    · rename_i hled
+      split
+      · intro hk
+        rcases ih _ hk with h | h
+        · rw [(startLeading_frame ops st k').1] at h; exact Or.inl h
+        · rcases startLeading_has ops st k' k h with e | h'
+          · subst e; exact Or.inl hled
+          · exact Or.inr h'
+      · exact ih st
+    · exact ih st
+
+theorem foldl_stopLeading_frame (ks : List Int) (st : Srv σ) : Frame st (ks.foldl stopLeading st) := by
+  induction ks generalizing st with
+  | nil => exact Frame.refl st
+  | cons k ks ih => exact (stopLeading_frame st k).trans (ih _)
+
+theorem foldl_stopLeading_get (ks : List Int) (st : Srv σ) (k : Int) :
+    (ks.foldl stopLeading st).stores.get k = if k ∈ ks then none else st.stores.get k := by
+  induction ks generalizing st with
+  | nil => simp
+  | cons k' ks ih =>
+    simp only [List.foldl_cons, ih, stopLeading_get, List.mem_cons]
+    by_cases h1 : k ∈ ks <;> by_cases h2 : k = k' <;> simp [h1, h2]
+
+theorem leaderCheck_frame (ops : StoreOps σ ρ) (st : Srv σ) : Frame st (leaderCheck ops st) := by
+  unfold leaderCheck
+  exact (checkStart_frame ops _ _ st).trans (foldl_stopLeading_frame _ _)
+
+/-- after `leaderCheck`, every remaining store is for a shard whose known leader is me -/
+theorem leaderCheck_has (ops : StoreOps σ ρ) (st : Srv σ) (k : Int) :
+    Has (leaderCheck ops st) k → st.leaders.get k = some st.me := by
+  unfold leaderCheck Has
+  simp only
+  rw [foldl_stopLeading_get]
+  split
+  · intro h; exact absurd rfl h
+  · rename_i hnot
+    intro hk
+    -- k has a store after the first loop and was not selected for stopping: it is led
+    have hmem : k ∈ AList.keys (checkStart ops st.leaders (AList.keys st.leaders) st).stores := by
+      cases hg : (checkStart ops st.leaders (AList.keys st.leaders) st).stores.get k with
+      | none => exact absurd hg hk
+      | some v => exact AL.mem_keys_of_get hg
+    have : ledIn st.leaders st.me k = true := by
+      cases hl : ledIn st.leaders st.me k with
+      | true => rfl
+      | false =>
+        exfalso; apply hnot
+        simp only [List.mem_filter]
+        exact ⟨hmem, by simp [hl]⟩
+    unfold ledIn at this
+    simpa using this
+
+theorem electorStart_frame (ops : StoreOps σ ρ) (st : Srv σ) (s : Int) :
+    (electorStart ops st s).me = st.me ∧ (electorStart ops st s).n = st.n ∧
+    (electorStart ops st s).leaders = AList.set st.leaders s st.me ∧ (electorStart ops st s).lister = st.lister := by
+  unfold electorStart
+  have h := startLeading_frame ops (setLeader st s st.me) s
+  exact ⟨h.1, h.2.1, h.2.2.1, h.2.2.2⟩
+
+theorem electorStop_get (st : Srv σ) (s k : Int) :
+    (electorStop st s).stores.get k = if k = s then none else st.stores.get k := by
+  unfold electorStop
+  simp only
+  rw [stopLeading_get]
+  split
+  · rfl
+  · split <;> rfl
+
 end KG.Lemmas.Shard
